@@ -287,6 +287,12 @@ def arith_worker(job):
         N(modulus=p)
         L = rnd.choice([0, 1, 2, 7, 8, 16, 33, 40])
         bits = [rnd.randint(0, 1) for _ in range(L)]
+        nonbit = L > 0 and rnd.random() < 0.2
+        if nonbit:
+            # entries that are small integers rather than bits (an entry-wise sum of bit strings, a signed digit): the algorithm is
+            # the same linear map, plain and traced
+            bits = [rnd.choice([0, 1, 2, -1, 3]) for _ in range(L)]
+            R.count("subset_sum_over_small_integers")
         plain = gh.ggh_hash(bits)
         want = ref.subset_sum(bits, p)
         R.count("subset_sum_compared")
@@ -304,7 +310,7 @@ def arith_worker(job):
                                   (shape == "interleaved" and ix > 0 and rnd.random() < 0.5))
                     if plain_here:
                         return b
-                    return PrivValBool(b) if rnd.random() < 0.5 else PrivVal(b)
+                    return PrivValBool(b) if rnd.random() < 0.5 and b in (0, 1) else PrivVal(b)
                 R.count("subset_sum_secret_shape:" + shape)
                 sec = gh.ggh_hash([_mk(ix, b) for ix, b in enumerate(bits)])
             except Exception as e:  # noqa
